@@ -13,7 +13,10 @@ import (
 
 	"github.com/emitter-io/emitter/internal/event"
 	"github.com/emitter-io/emitter/internal/event/crdt"
+	"github.com/emitter-io/emitter/internal/message"
+	"github.com/emitter-io/emitter/internal/security"
 	"github.com/emitter-io/emitter/internal/verif/vkit"
+	"github.com/golang/snappy"
 	"github.com/weaveworks/mesh"
 	"pgregory.net/rapid"
 )
@@ -285,3 +288,57 @@ func TestProbeCoalescedLost(t *testing.T) {
 
 // TestDeltaUnderConcurrency: merges arriving over several links at once, racing local operations (vkit/crdtrace.go).
 func TestDeltaUnderConcurrency(t *testing.T) { vkit.Check(t, vkit.GenCrdtRace, vkit.RunCrdtRaceDelta) }
+
+// TestLargePayload: a gossip payload far above the everyday size (150 000 subscriptions: a few MB on the wire, more
+// than 15 MB decoded - still one mesh frame of at most 10 MiB) is merged completely: every entry is new, so every entry is in the delta
+// and in the receiver afterwards.
+func TestLargePayload(t *testing.T) {
+	const n = 150000
+	src := event.NewState("")
+	for i := 0; i < n; i++ {
+		src.Add(&event.Subscription{Peer: 7, Conn: security.ID(i + 1), Ssid: message.Ssid{1, uint32(i % 1000), uint32(i)}, Channel: []byte(fmt.Sprintf("a-long-enough-channel-name/big/%d/%d/", i%1000, i))})
+	}
+	enc := src.Encode()[0]
+	for _, durable := range []bool{false, true} {
+		decodedLen, _ := snappy.DecodedLen(enc)
+		c := map[string]interface{}{"subscriptions": n, "encoded-bytes": len(enc), "decoded-bytes": decodedLen, "durable-receiver": durable}
+		if len(enc) >= 10<<20 {
+			t.Fatalf("harness: the payload (%d bytes) does not fit one frame", len(enc))
+		}
+		fail := func(msg string) {
+			vkit.ReportFailure(t.Name(), c, msg, "")
+			t.Fatal(msg)
+		}
+		in, err := event.DecodeState(enc)
+		if err != nil {
+			fail(fmt.Sprintf("a payload of %d subscriptions (%d bytes encoded, within one transport frame) does not decode: %v - none of its updates is merged or relayed", n, len(enc), err))
+		}
+		dst := event.NewState("")
+		if durable {
+			dst = event.NewState(":memory:")
+		}
+		delta := dst.Merge(in)
+		if delta == nil {
+			fail("merging a payload of new entries returned no delta")
+		}
+		got, inDelta := 0, 0
+		dst.Subscriptions(func(*event.Subscription, event.Value) { got++ })
+		delta.(*event.State).Subscriptions(func(*event.Subscription, event.Value) { inDelta++ })
+		if got != n || inDelta != n {
+			fail(fmt.Sprintf("payload of %d new subscriptions: the receiver holds %d afterwards, the delta handed on carries %d", n, got, inDelta))
+		}
+		if dst.Merge(mustDecode(enc)) != nil {
+			fail("merging the same large payload again returns a non-empty delta")
+		}
+		dst.Close()
+		vkit.Record(t.Name(), c, vkit.OK(true, "large-payload"))
+	}
+}
+
+func mustDecode(b []byte) *event.State {
+	st, err := event.DecodeState(b)
+	if err != nil {
+		panic(err)
+	}
+	return st
+}
